@@ -30,6 +30,20 @@ def cases_for(rng, tier):
         if rng.random() < 0.2:      # second full write replaces the first
             ops.append({"op": "write", "path": op["path"], "val": histgen.rand_data(rng, dt, prod(dims), op.get("strsize", 0)).hex()})
         cases.append({"sb": rng.choice([0, 2, 3]), "ops": ops})
+    # many chunks along one (also a non-leading) dimension: more index entries than any small-extent case has
+    # (added after seeded change C01-c, which confused chunks [0,31] and [1,0] in the reader's chunk collection)
+    for i in range(160 if tier == "quick" else 3000):
+        rank = rng.choice([1, 2, 2, 2, 3])
+        big = rng.choice([31, 32, 33, 40, 63, 64, 65, 70, 100])
+        pos = rng.randrange(rank)
+        dims = [big if k == pos else rng.choice([1, 2, 3]) for k in range(rank)]
+        ch = [rng.choice([1, 1, 2]) if k == pos else rng.choice([1, 1, 2]) for k in range(rank)]
+        dt = rng.choice(["int32", "uint8", "float64", "int64"])
+        op = {"op": "mkds", "path": "/m", "dtype": dt, "dims": dims, "chunk": [min(c, d) for c, d in zip(ch, dims)]}
+        if rng.random() < 0.2:
+            op["filters"] = ["gzip:1"]
+        cases.append({"sb": rng.choice([0, 2, 3]),
+                      "ops": [op, {"op": "write", "path": "/m", "val": histgen.rand_data(rng, dt, prod(dims)).hex()}]})
     for i in range(300 if tier == "quick" else 5000):   # several datasets, groups and attributes around them
         cases.append({"sb": rng.choice([0, 2, 3]), "ops": histgen.gen_mixed(rng, nops=rng.choice([15, 40]), fail_rate=0.05, resize=False)})
     return cases
@@ -38,4 +52,4 @@ def cases_for(rng, tier):
 def run(ctx):
     return histcheck.run(ctx, cases_for(ctx.rng, ctx.tier), "C01", tags={"data", "create", "tree"}, unit_modules=["c01unit"],
                          rule_extra="C01 cases: one fully written dataset per file over all element types, ranks 1-4, extents incl. 1/primes/"
-                                    "non-multiples of the chunk extent, chunk shapes, superblock 0/2/3, data with extremes and NaN payloads.")
+                                    "non-multiples of the chunk extent, chunk shapes, superblock 0/2/3, data with extremes and NaN payloads; plus datasets with 31-100 chunks along one dimension (any position) of rank 1-3.")
